@@ -10,7 +10,8 @@ behaviour a property depends on (then a rule is missing) or not (logging, statis
 performance only).  The survey never decides a property; it is a development aid, its results are
 summarised in DESIGN.md section 11.7 and kept in survey/.
 
-usage: survey.py <out.jsonl> [--jobs N] [--only file.rs:fn ...]
+usage: survey.py <out.jsonl> [--jobs N] [--op delete|swallow] [--all-files] [--list] [--only file.rs:fn ...]
+(--only must come last)
 """
 import os, sys, re, json, subprocess, tempfile, shutil, concurrent.futures
 
@@ -112,6 +113,9 @@ def statements(lines, start, end):
     return out
 
 
+OP = 'delete'
+
+
 def run_one(job):
     rel, fname, a, b, text = job
     scratch = tempfile.mkdtemp(prefix='redb-survey-')
@@ -119,7 +123,15 @@ def run_one(job):
         subprocess.check_call(['rsync', '-a', '--exclude', 'target', '--exclude', '.git', '/repo/', scratch + '/repo/'])
         p = os.path.join(scratch, 'repo', rel)
         lines = open(p).read().split('\n')
-        del lines[a:b + 1]
+        if OP == 'swallow':
+            # `expr?;` -> `let _ = expr;` : the error is silently dropped
+            last = lines[b].rstrip()
+            assert last.endswith('?;'), last
+            lines[b] = last[:-2] + ';'
+            ind = len(lines[a]) - len(lines[a].lstrip())
+            lines[a] = lines[a][:ind] + 'let _ = ' + lines[a][ind:]
+        else:
+            del lines[a:b + 1]
         open(p, 'w').write('\n'.join(lines))
         env = dict(os.environ)
         env['VERIF_REPO'] = scratch + '/repo'
@@ -148,12 +160,22 @@ def run_one(job):
 
 
 def main():
+    global OP
     out = sys.argv[1]
     jobs_n = 3
     only = None
     a = sys.argv[2:]
     if '--jobs' in a:
         jobs_n = int(a[a.index('--jobs') + 1])
+    if '--op' in a:
+        OP = a[a.index('--op') + 1]
+    targets = TARGETS
+    if OP == 'swallow' or '--all-files' in a:
+        targets = {}
+        for dp, _dn, fns_ in os.walk('/repo/src'):
+            for fn_ in fns_:
+                if fn_.endswith('.rs'):
+                    targets[os.path.relpath(os.path.join(dp, fn_), '/repo')] = None
     if '--only' in a:
         only = a[a.index('--only') + 1:]
     done = set()
@@ -162,7 +184,7 @@ def main():
             d = json.loads(l)
             done.add((d['file'], d['fn'], d['text']))
     jobs = []
-    for rel, fns in TARGETS.items():
+    for rel, fns in sorted(targets.items()):
         lines = open(os.path.join('/repo', rel)).read().split('\n')
         for (name, s, e) in fn_extents(lines):
             if fns is not None and name not in fns:
@@ -171,6 +193,8 @@ def main():
                 continue
             for (x, y) in statements(lines, s, e):
                 text = ' '.join(t.strip() for t in lines[x:y + 1])[:200]
+                if OP == 'swallow' and not lines[y].rstrip().endswith(')?;'):
+                    continue
                 if (rel, name, text) in done:
                     continue
                 jobs.append((rel, name, x, y, text))
